@@ -239,7 +239,7 @@ func (rw *rewriter) selector(e *ast.SelectorExpr, c ctxKind) ast.Expr {
 			x = rw.expr(e.X, ctxPlace)
 		}
 		ne := &ast.SelectorExpr{X: x, Sel: e.Sel}
-		if rw.opts.Access && !rw.opts.NoFields && c != ctxPlace && rw.addressable(e) && !rw.localRoot(e) && !isSyncType(rw.info.TypeOf(e)) {
+		if rw.opts.Access && (!rw.opts.NoFields || rw.inLockBearingStruct(e)) && c != ctxPlace && rw.addressable(e) && !rw.localRoot(e) && !isSyncType(rw.info.TypeOf(e)) {
 			return rw.wrap(ne, c, e)
 		}
 		return ne
@@ -254,6 +254,44 @@ func (rw *rewriter) selector(e *ast.SelectorExpr, c ctxKind) ast.Expr {
 		return &ast.SelectorExpr{X: rw.expr(e.X, xc), Sel: e.Sel}
 	}
 	return e
+}
+
+// inLockBearingStruct reports whether the field selected by e belongs to a
+// struct that (directly or through embedded value fields) contains a type of
+// package sync: such structs are state the program synchronises on; the
+// frozen arena leaves them on the heap, so their fields report to the race
+// checker even in NoFields mode.
+func (rw *rewriter) inLockBearingStruct(e *ast.SelectorExpr) bool {
+	t := rw.info.TypeOf(e.X)
+	if t == nil {
+		return false
+	}
+	if p, ok := t.Underlying().(*types.Pointer); ok {
+		t = p.Elem()
+	}
+	return bearsLock(t, 0)
+}
+
+func bearsLock(t types.Type, depth int) bool {
+	if depth > 6 {
+		return false
+	}
+	if n, ok := t.(*types.Named); ok && n.Obj().Pkg() != nil {
+		if p := n.Obj().Pkg().Path(); p == "sync" || p == "sync/atomic" {
+			return true
+		}
+	}
+	switch u := t.Underlying().(type) {
+	case *types.Struct:
+		for i := 0; i < u.NumFields(); i++ {
+			if bearsLock(u.Field(i).Type(), depth+1) {
+				return true
+			}
+		}
+	case *types.Array:
+		return bearsLock(u.Elem(), depth+1)
+	}
+	return false
 }
 
 func (rw *rewriter) index(e *ast.IndexExpr, c ctxKind) ast.Expr {
